@@ -372,6 +372,7 @@ func cmdCheck(args []string) int {
 		}
 	}
 
+	printForkStat()
 	// known findings seen
 	knownSeen := map[string]int{}
 	for _, r := range results {
